@@ -53,8 +53,7 @@ def run_case(seed, tid):
     wsm = rng.choice([float(F(1, 2 * tps)), float(F(rng.randint(1, 40), tps)), float(F(nticks, 3 * tps)), 60.0])
     if wsm * tps > 2000:
         wsm = float(F(1500, tps))
-    if int(wsm * tps) < 4:
-        nticks = min(nticks, 120)        # an event (almost) every tick: keep the JSON arrays of one line short (TLC's Json module is recursive in their length)
+    nticks = min(nticks, 150 * (int(wsm * tps) + 1))        # an event (almost) every tick: keep the JSON arrays of one line short (TLC's Json module is recursive in their length)
     params = parse_args_with_defaults({
         "ticks_per_second": tps, "waiting_seconds_mean": wsm, "num_pipelines": rng.choice([1, 2, 4, 7]), "num_operators": rng.choice([1, 2, 5, 9]),
         "interactive_prob": ip, "query_prob": qp, "batch_prob": bp, "cpu_io_ratio": rng.choice([0.0, 0.1, 0.5, 0.9, 1.0]), "random_seed": rng.randrange(10**6)})
@@ -83,9 +82,10 @@ def run_case(seed, tid):
         else:
             stray += len(calls)
     tot = ip + qp + bp
-    return {"kind": "run", "tid": tid, "seed": seed, "tps": tps, "nticks": nticks, "num_pipelines": params["num_pipelines"], "num_operators": params["num_operators"],
-            "probs": [micro(ip), micro(qp), micro(bp)], "probs_norm": [micro(ip / tot), micro(qp / tot), micro(bp / tot)],
-            "ratio": micro(params["cpu_io_ratio"]), "mean_ticks": int(wsm * tps), "events": events, "stray_calls": stray}
+    hdr = {"kind": "hdr", "tid": tid, "seed": seed, "tps": tps, "nticks": nticks, "num_pipelines": params["num_pipelines"], "num_operators": params["num_operators"],
+           "probs": [micro(ip), micro(qp), micro(bp)], "probs_norm": [micro(ip / tot), micro(qp / tot), micro(bp / tot)],
+           "ratio": micro(params["cpu_io_ratio"]), "mean_ticks": int(wsm * tps)}
+    return [hdr] + [dict(ev, kind="ev", tid=tid) for ev in events] + [{"kind": "end", "tid": tid, "nticks": nticks, "stray_calls": stray}]
 
 
 def pair_case(seed, tid):
@@ -114,7 +114,7 @@ def pair_case(seed, tid):
 def _chunk(args):
     seeds, tid0 = args
     common.import_repo()
-    return [[run_case(sd, tid0 + i)] if i % 10 else [pair_case(sd, tid0 + i)] for i, sd in enumerate(seeds)]
+    return [run_case(sd, tid0 + i) if i % 10 else [pair_case(sd, tid0 + i)] for i, sd in enumerate(seeds)]
 
 
 def gen_lines(n, seed):
